@@ -23,11 +23,13 @@ type HarnessCfg struct {
 	NoIfConvert    bool
 	Workers        int
 	Witnesses      int
+	Fallbacks      []string
+	FallbackS      int
 }
 
 func defaultCfg() *HarnessCfg {
 	return &HarnessCfg{MaxSteps: 2_000_000, MaxPaths: 400_000, QueryMS: 20_000, MaxConcretise: 64, MaxAlloc: 1 << 16,
-		MaxCexPerLabel: 2, Backend: "z3", Workers: 16, Witnesses: 24}
+		MaxCexPerLabel: 2, Backend: "z3", Workers: 16, Witnesses: 24, Fallbacks: []string{"z3-new", "cvc5"}, FallbackS: 120}
 }
 
 type Violation struct {
@@ -46,6 +48,7 @@ type Violation struct {
 
 type AssertStat struct {
 	Checked, Trivial, Proved, Failed, Unknown int
+	Fallbacks                                 int
 	Violations                                []*Violation
 }
 
@@ -114,6 +117,7 @@ func (r *HarnessResult) merge(o *HarnessResult) {
 		s.Proved += v.Proved
 		s.Failed += v.Failed
 		s.Unknown += v.Unknown
+		s.Fallbacks += v.Fallbacks
 		s.Violations = append(s.Violations, v.Violations...)
 	}
 	r.Panics = append(r.Panics, o.Panics...)
